@@ -1,0 +1,179 @@
+//go:build verif
+
+package reflect
+
+import (
+	"fmt"
+	"reflect"
+	"sync"
+	"sync/atomic"
+	"unsafe"
+)
+
+// Verification hooks (build tag "verif"): observation, pool poisoning and
+// delay injection for the runtime monitors living outside this repository.
+
+const (
+	verifPoolDecoder = iota
+	verifPoolBitset
+	verifPoolUnknown
+	verifPoolMapTmp
+	verifPoolRV
+	verifPoolKinds
+)
+
+const (
+	verifYieldBeforeLock = iota
+	verifYieldBetweenSets
+	verifYieldAfterCacheInsert
+	verifYieldBeforeStore
+	verifYieldPoints
+)
+
+// VerifHooks is installed by the harness.
+type VerifHooks struct {
+	// Poison enables the pool sanitizer: every object taken from a pool is
+	// overwritten with the worst state a legitimate predecessor could have
+	// left behind before the caller sees it.
+	Poison bool
+	// FillValue, when set, is asked to overwrite an addressable scratch value
+	// (map temp key/value slots, the by-value argument copy) with an arbitrary
+	// valid value of its type.
+	FillValue func(v reflect.Value)
+	// SpanSkew returns how many bytes of the free tail of a recycled decoder
+	// block to burn (any value is what some earlier decode could have used).
+	SpanSkew func(free int) int
+	// Yield is called at the named points of descriptor creation.
+	Yield func(point int)
+	// SpanCheck enables the allocator contract monitor.
+	SpanCheck bool
+}
+
+var (
+	verifHooks    atomic.Pointer[VerifHooks]
+	verifCounters [verifPoolKinds + verifYieldPoints + 1]atomic.Int64
+
+	verifMu       sync.Mutex
+	verifReports  []string
+	verifSpanSeen = map[*span]verifSpanState{}
+)
+
+type verifSpanState struct {
+	block unsafe.Pointer
+	end   int
+}
+
+// VerifSetHooks installs (or with nil removes) the hooks.
+func VerifSetHooks(h *VerifHooks) { verifHooks.Store(h) }
+
+// VerifDrain returns and clears the monitor reports gathered so far.
+func VerifDrain() []string {
+	verifMu.Lock()
+	defer verifMu.Unlock()
+	r := verifReports
+	verifReports = nil
+	return r
+}
+
+// VerifCounters returns how often each hook fired: pool gets by kind, yield
+// points, span mallocs (last).
+func VerifCounters() []int64 {
+	r := make([]int64, len(verifCounters))
+	for i := range verifCounters {
+		r[i] = verifCounters[i].Load()
+	}
+	return r
+}
+
+// VerifLimits exports the decoder's limits so that monitors follow the code.
+func VerifLimits() (maxDepth, spanBlock int) { return maxDepthLimit, defaultDecoderMemSize }
+
+func verifReport(format string, a ...interface{}) {
+	verifMu.Lock()
+	if len(verifReports) < 100 {
+		verifReports = append(verifReports, fmt.Sprintf(format, a...))
+	}
+	verifMu.Unlock()
+}
+
+func verifPoolGet(kind int, obj unsafe.Pointer, t *tType) {
+	verifCounters[kind].Add(1)
+	h := verifHooks.Load()
+	if h == nil || !h.Poison {
+		return
+	}
+	switch kind {
+	case verifPoolDecoder:
+		d := (*tDecoder)(obj)
+		s := &d.s
+		if free := s.n - s.p; free > 0 {
+			tail := unsafe.Slice((*byte)(unsafe.Add(s.b, s.p)), free)
+			for i := range tail {
+				tail[i] = 0xA5
+			}
+			if h.SpanSkew != nil {
+				if k := h.SpanSkew(free); k > 0 && k <= free {
+					s.p += k
+				}
+			}
+		}
+		if h.SpanCheck {
+			verifMu.Lock()
+			verifSpanSeen[s] = verifSpanState{block: s.b, end: s.p}
+			verifMu.Unlock()
+		}
+	case verifPoolBitset:
+		bs := (*bitset)(obj)
+		for i := range bs.data {
+			bs.data[i] = ^uint64(0)
+		}
+	case verifPoolUnknown:
+		p := (*unknownFields)(obj)
+		p.sz = 1 << 20
+		p.offs = append(p.offs[:0], unknownFieldIdx{off: 1 << 30, sz: 1 << 20}, unknownFieldIdx{off: -5, sz: 7})
+	case verifPoolMapTmp:
+		if h.FillValue != nil {
+			tmp := (*tmpMapVars)(obj)
+			h.FillValue(tmp.k)
+			h.FillValue(tmp.v)
+		}
+	case verifPoolRV:
+		if h.FillValue != nil {
+			h.FillValue((*(*reflect.Value)(obj)).Elem())
+		}
+	}
+}
+
+func verifSpanMalloc(s *span, ret unsafe.Pointer, n, align int) {
+	verifCounters[len(verifCounters)-1].Add(1)
+	h := verifHooks.Load()
+	if h == nil || !h.SpanCheck {
+		return
+	}
+	off := int(uintptr(ret) - uintptr(s.b))
+	if align > 0 && uintptr(ret)&uintptr(align-1) != 0 {
+		verifReport("span: result %p not aligned to %d (n=%d)", ret, align, n)
+	}
+	if uintptr(ret) < uintptr(s.b) || off+n > s.n {
+		verifReport("span: result [%d,%d) outside block of %d bytes", off, off+n, s.n)
+	}
+	if s.p != off+n {
+		verifReport("span: offset %d after returning [%d,%d)", s.p, off, off+n)
+	}
+	verifMu.Lock()
+	st, ok := verifSpanSeen[s]
+	if ok && st.block == s.b && off < st.end {
+		verifMu.Unlock()
+		verifReport("span: result [%d,%d) overlaps earlier allocations up to %d", off, off+n, st.end)
+		verifMu.Lock()
+	}
+	verifSpanSeen[s] = verifSpanState{block: s.b, end: off + n}
+	verifMu.Unlock()
+}
+
+func verifYield(point int) {
+	verifCounters[verifPoolKinds+point].Add(1)
+	if h := verifHooks.Load(); h != nil && h.Yield != nil {
+		h.Yield(point)
+	}
+}
